@@ -213,6 +213,11 @@ def jobs(tier, seed):
             via_file = (k % 3 == 0) and op != "sort"
             j.append(("h_op", {"op": op, "n": n, "dtype": dtype, "input_order": io, "output_order": oo, "via_file": via_file, "out_file": k % 2 == 0, "arg": arg}))
             k += 1
+    # dtype x output-file combinations that the alternation above does not produce
+    j += [("h_op", {"op": "bin", "n": 2, "arg": 2, "dtype": "int16", "out_file": True}),
+          ("h_op", {"op": "bin", "n": 2, "arg": 3, "dtype": "float32", "out_file": True, "via_file": True, "input_order": "zyx", "output_order": "zyx"}),
+          ("h_op", {"op": "crop", "n": 2, "dtype": "int16", "out_file": True, "via_file": True}),
+          ("h_op", {"op": "sort", "n": 3, "dtype": "int16", "out_file": True, "input_order": "zyx"})]
     if tier == "thorough":
         j += [("h_op", {"op": "sort", "n": 4}), ("h_op", {"op": "bin", "n": 2, "arg": 4, "dtype": "int16", "out_file": True}),
               ("h_op", {"op": "remove", "n": 8, "arg": ([1, 8, 5], True), "via_file": True, "out_file": True})]
